@@ -29,19 +29,25 @@ def pen_callable(alpha, betas):
     return f
 
 
+def fit_len(n, m):
+    """the detector is fitted on a series of ANOTHER length than the one it is applied to: longer, or (odd n) shorter down to the minimum"""
+    d = (n * 7 + 3) % 5
+    return max(m, n - d - 2) if n % 2 else n + d
+
+
 def run_impl(c, ignore):
     from skchange.anomaly_detectors import CAPA, MVCAPA
     p, n = len(c["ctabs"]), c["n"]
     X = pd.DataFrame(np.zeros((n, p)))
     if c["det"] == "CAPA":
         d = CAPA(collective_saving=ts.TableSaving(c["ctabs"]), point_saving=ts.TableSaving(c["ptabs"]),
-                 min_segment_length=c["m"], max_segment_length=c["M"], ignore_point_anomalies=ignore).fit(pd.DataFrame(np.zeros((len(X) + (len(X) * 7 + 3) % 5, X.shape[1]))))
+                 min_segment_length=c["m"], max_segment_length=c["M"], ignore_point_anomalies=ignore).fit(pd.DataFrame(np.zeros((fit_len(len(X), c['m']), X.shape[1]))))
         d.collective_penalty_ = float(c["ac"])
         d.point_penalty_ = float(c["ap"])
     else:
         d = MVCAPA(collective_saving=ts.TableSaving(c["ctabs"]), point_saving=ts.TableSaving(c["ptabs"]),
                    collective_penalty=pen_callable(c["ac"], c["bc"]), point_penalty=pen_callable(c["ap"], c["bp"]),
-                   min_segment_length=c["m"], max_segment_length=c["M"], ignore_point_anomalies=ignore).fit(pd.DataFrame(np.zeros((len(X) + (len(X) * 7 + 3) % 5, X.shape[1]))))
+                   min_segment_length=c["m"], max_segment_length=c["M"], ignore_point_anomalies=ignore).fit(pd.DataFrame(np.zeros((fit_len(len(X), c['m']), X.shape[1]))))
     scores = d.transform_scores(X).to_numpy()
     y = d.predict(X)
     iv = y["ilocs"].array
@@ -227,6 +233,9 @@ def run(ctx):
     variants_stream(ctx, "MVCAPA", lambda: _MVCAPA(min_segment_length=2, max_segment_length=30), ctx.n(3, 16),
                     flat_make=lambda: _MVCAPA(min_segment_length=2, collective_penalty_scale=1e6, point_penalty_scale=1e6))
     float_optimality_stream(ctx)
+    from skchange.costs import L2Cost as _L2c
+    variants_stream(ctx, "MVCAPA(L2Cost saving)", lambda: _MVCAPA(collective_saving=_L2c(param=0.0), point_saving=_L2c(param=0.0), min_segment_length=2, max_segment_length=30),
+                    ctx.n(2, 10), p_choices=(2, 3), nested=("collective_saving__param", 1.5))
     # ---- the generic dynamic programme (Model/GenericCapa.v) on primitive floats against the real CAPA / MVCAPA, bit for bit ----
     from harness import floatstreams
     floatstreams.capa_float_stream(ctx, ctx.n(18, 120))
